@@ -21,7 +21,7 @@ type Aux struct {
 	cache         map[string]*slip.Method
 	methods       map[string]*slip.Method
 	defaultKey    string
-	defaultCaller slip.Caller
+	defaultCaller *slip.Method
 	moo           sync.Mutex
 }
 
@@ -57,9 +57,9 @@ func (aux *Aux) Call(gf slip.Object, s *slip.Scope, args slip.List, depth int) s
 	}
 	aux.moo.Lock()
 	if aux.defaultCaller != nil {
-		caller := aux.defaultCaller
+		meth := aux.defaultCaller
 		aux.moo.Unlock()
-		return caller.Call(s, args, depth)
+		return meth.InnerCall(s, args, depth)
 	}
 	// Any further argument checking gets tricky as optinal could be keywords
 	// depending on then method's forms.
@@ -98,7 +98,14 @@ func (aux *Aux) updateDefaultCaller() {
 			if len(m.Combinations) == 1 && aux.defaultKey == k {
 				c := m.Combinations[0]
 				if c.Primary != nil && c.Before == nil && c.After == nil && c.Wrap == nil {
-					aux.defaultCaller = c.Primary
+					// A method of its own so that the primary is called
+					// like any other, with a location for next-method-p
+					// and call-next-method.
+					aux.defaultCaller = &slip.Method{
+						Name:         m.Name,
+						Doc:          m.Doc,
+						Combinations: []*slip.Combination{{Primary: c.Primary}},
+					}
 				}
 			}
 		}
